@@ -10,7 +10,7 @@ from __future__ import annotations
 import ast
 
 from ..cfg import cfg_of
-from ..flow import flow_of, path_of
+from ..flow import deref, flow_of, path_of
 from ..loader import FUNC, AnalysisError, dotted, last_name, loc, short, walk_local, enclosing_stmt
 from ..util import (AMS, ASE, CP2K, ENGBASE, ENGPARTS, GROMACS, LAMMPS, TURTLE, class_of,
                     is_self_attr, kwarg, last_key, loops_of)
@@ -696,7 +696,20 @@ def r124(ctx):
                 ]
                 ok_i = False
                 for b in stop_br:
-                    k_ok = [k for k in kills if cfg.dominates(b, cfg.node_of(k)) and f"{var}.pid" in ast.unparse(k) or (k in kills and cfg.dominates(b, cfg.node_of(k)) and isinstance(k.func, ast.Attribute) and k.func.attr in ("terminate", "kill"))]
+                    def _names_pid(k):
+                        if f"{var}.pid" in ast.unparse(k):
+                            return True
+                        for a_ in k.args:
+                            e_, _ = deref(fl, a_, cfg.node_of(k))
+                            if f"{var}.pid" in ast.unparse(e_):
+                                return True
+                            for a2 in (e_.args if isinstance(e_, ast.Call) else []):
+                                e2, _ = deref(fl, a2, cfg.node_of(k))
+                                if f"{var}.pid" in ast.unparse(e2):
+                                    return True
+                        return False
+
+                    k_ok = [k for k in kills if cfg.dominates(b, cfg.node_of(k)) and _names_pid(k) or (k in kills and cfg.dominates(b, cfg.node_of(k)) and isinstance(k.func, ast.Attribute) and k.func.attr in ("terminate", "kill"))]
                     w_ok = [w for w in waits if cfg.dominates(b, cfg.node_of(w))]
                     if k_ok and w_ok:
                         # guarded by "still running"
